@@ -52,6 +52,7 @@ type Contract struct {
 	Ensures  []*Clause
 	Modifies []*Clause
 	Layer    string
+	Inline   bool
 	Props    []string
 	Line     int
 	id       string
@@ -62,7 +63,7 @@ type Contract struct {
 	Loops      map[int]*LoopSpec
 }
 
-func (c *Contract) Usable() bool { return c != nil && c.Discharged }
+func (c *Contract) Usable() bool { return c != nil && c.Discharged && !c.Inline }
 
 type LoopSpec struct {
 	Ordinal    int
@@ -252,6 +253,8 @@ func parseContractFile(path string) (*ContractFile, error) {
 					cur.Modifies = append(cur.Modifies, cl)
 				}
 			}
+		case "inline":
+			cur.Inline = true // verified, but callers see the body (constructors returning fresh objects)
 		case "layer":
 			cur.Layer = rest
 		case "props":
@@ -396,7 +399,7 @@ func (cf *ContractFile) generate(ghostInPkg bool) (string, error) {
 			}
 			cl.FnName = fmt.Sprintf("vc_%s_%s_%d", c.id, tag, i)
 			rt := "bool"
-			if cl.Label == "diff" {
+			if cl.Label == "diff" || cl.Label == "diffalt" {
 				// component-wise postcondition: `<uint64 difference mask> == 0`
 				t := strings.TrimSpace(ex)
 				if !strings.HasSuffix(t, "== 0") {
